@@ -7,7 +7,8 @@ import (
 func VP_C10_conn() {
 	vpSetupNative()
 	vp.SizeBound(64)
-	a, b := vpConnPair(true, vpConnThreshold())
+	// the transport delivers everything at once, or short reads of 1 or 3 bytes
+	a, b := vpConnPairChunk(true, vpConnThreshold(), []int{0, 1, 3}[vp.Choice(3)])
 	vpExchange(a, b)
 	vp.Cover("end")
 }
